@@ -81,7 +81,7 @@ Lemma link_chain ls script k : map_only ls -> nonneg (script k) ->
   nonneg (fst (fst (Stack.eval ls script k))).
 Proof.
   unfold chain_of. intros M Hs. induction ls as [|l ls IH]; [cbn; auto|].
-  destruct l as [t r| | | |]; try (destruct M; fail). destruct M as [Ht M].
+  destruct l as [t r| | | | |]; try (destruct M; fail). destruct M as [Ht M].
   destruct (IH M) as (I1 & I2 & I3 & I4). clear IH.
   cbn [Stack.eval map rev]. destruct (Stack.eval ls script k) as [[o k'] c]. cbn [fst snd] in *.
   destruct (apply_fn_vapply t r o I4) as [A1 A2]. pose proof (apply_fn_nonneg t r o Ht I4) as A3.
